@@ -57,8 +57,20 @@ def parse_kv(s):
     return d
 
 
+def canon_tris(T):
+    """triangles as a multiset of corner triples rotated to start at the smallest corner (skinned shapes are stored per skin
+    partition, in that normal form)"""
+    out = []
+    for t in T:
+        t = tuple(t)
+        k = t.index(min(t))
+        out.append(t[k:] + t[:k])
+    return sorted(out)
+
+
 def judge(line, o):
     why = []
+    skinned = "k" in (line.split(" ") + [""])[5]
     parts = o.split(" | ")
     inp = parse_kv(parts[0])
     nv_in = 0 if inp["V"] == "-" else len(inp["V"].split(","))
@@ -93,7 +105,10 @@ def judge(line, o):
             e = cmp(UV, o["UV"], 2, "half" if isbs else "exact")
             if e:
                 why.append(f"{what}: UVs: {e}")
-        if T is not None and o["T"] != T[:nt_exp]:
+        if T is not None and skinned and what != "after create":
+            if canon_tris(o["T"]) != canon_tris(T[:nt_exp]):
+                why.append(f"{what}: triangle set differs ({len(o['T'])} read, {nt_exp} expected)")
+        elif T is not None and o["T"] != T[:nt_exp]:
             why.append(f"{what}: triangles differ ({len(o['T'])} read, {nt_exp} expected)")
         for k in ("UV", "N", "C", "TG", "BT"):
             if o[k] is not None and len(o[k]) != o["nv"]:
@@ -137,13 +152,23 @@ def judge(line, o):
     if "RELOAD2" in st and "SAVED2" in st:
         a, b = SP.parse(st["SAVED2"][0]), SP.parse(st["RELOAD2"][0])
         for k in ("nv", "T"):
-            if a[k] != b[k]:
+            if (canon_tris(a[k]) != canon_tris(b[k])) if (k == "T" and skinned) else (a[k] != b[k]):
                 why.append(f"second save+reload: {k} differs")
         for k, w in (("V", 3), ("UV", 2), ("N", 3), ("C", 4)):
             if a[k] is not None and b[k] is not None:
                 e = cmp(a[k], b[k], w, "exact" if not isbs else ("half" if k in ("V", "UV") and not (k == "V" and fullprec) else "byte"))
                 if e:
                     why.append(f"second save+reload: {k}: {e}")
+    if "RELOAD3" in st and "SAVED3" in st:
+        a, b = SP.parse(st["SAVED3"][0]), SP.parse(st["RELOAD3"][0])
+        for k in ("nv", "T"):
+            if (canon_tris(a[k]) != canon_tris(b[k])) if (k == "T" and skinned) else (a[k] != b[k]):
+                why.append(f"third save+reload (same layout): {k} differs")
+        for k, w in (("V", 3), ("UV", 2), ("N", 3), ("C", 4)):
+            if a[k] is not None and b[k] is not None:
+                e = cmp(a[k], b[k], w, "exact" if not isbs else ("half" if k in ("V", "UV") and not (k == "V" and fullprec) else "byte"))
+                if e:
+                    why.append(f"third save+reload (same layout): {k}: {e}")
     elif any(k.endswith("failed") for k in st):
         why.append("second save/reload failed")
     return why
@@ -161,6 +186,8 @@ def run(ctx):
             for nv, nt in [(1, 0), (3, 1), (4, 4), (17, 30), (300, 500)]:
                 for fl_ in ("n", "", "nh"):
                     lines.append(f"c13.run {ver} {nv} {nt} {rng.randrange(1, 10**6)} {fl_}")
+            for nv, nt in [(9, 7), (64, 100)]:
+                lines.append(f"c13.run {ver} {nv} {nt} {rng.randrange(1, 10**6)} nk")      # skinned
             lines.append(f"c13.run {ver} 65535 70001 {rng.randrange(1, 10**6)} n")
             lines.append(f"c13.run {ver} 65534 65536 {rng.randrange(1, 10**6)} ")
             if ctx.tier == "thorough":
@@ -184,7 +211,7 @@ def run(ctx):
     res.coverage.update(
         evaluations=len(lines), distinct_nontrivial=nontrivial, traces_validated_against_impl=len(lines),
         rule="8 versions (OB, FO3, SK, SSE, FO4 130/132/139, FO76) × meshes of 1, 3, 4, 17, 300, 65534, 65535 vertices (thorough: 65600 "
-             "and random sizes) with and without normals, arbitrary and half-exact coordinates, up to 70001 triangles; per case: "
+             "and random sizes) with and without normals, skinned and unskinned, arbitrary and half-exact coordinates, up to 70001 triangles; per case: "
              "create → read back, save+reload, setters for positions / UVs / normals / tangents / bitangents / colours / eye data each "
              "followed by a full observation, bounds, second save+reload",
         oracle_failures=len(bad), samples=[l for l in lines[:: max(1, len(lines) // 5)]][:5])
